@@ -19,9 +19,26 @@ func genC08(c *lp.Ctx) {
 		if len(keys) < 2 {
 			keys = []string{"a", "b", "c"}
 		}
-		kind := c.Rng.Intn(6)
+		kind := c.Rng.Intn(8)
 		i := c.Rng.Intn(len(keys) - 1)
 		switch kind {
+		case 6, 7: // a middle key deviates INSIDE the prefix the first and the last key share, its tail stays in order
+			pre := []string{"user/", "ab", "\x80\x80\x80", "p"}[c.Rng.Intn(4)]
+			for j := range keys {
+				keys[j] = pre + keys[j]
+			}
+			if len(keys) < 3 {
+				keys = []string{pre + "1", pre + "2", pre + "3"}
+			}
+			i = 1 + c.Rng.Intn(len(keys)-2)
+			b := []byte(keys[i])
+			at := c.Rng.Intn(len(pre))
+			if kind == 6 {
+				b[at]++
+			} else {
+				b[at]--
+			}
+			keys[i] = string(b)
 		case 0: // equal neighbours
 			keys[i+1] = keys[i]
 		case 1: // swapped neighbours
